@@ -387,6 +387,7 @@ def units(tier, seed):
     us.extend({"kind": "priority", "part": i, "of": 32, "tier": tier} for i in range(32))
     for kind in ("prefix_map", "upgrade", "reverse", "priority"):
         us.extend({"kind": kind, "part": i, "of": 4, "nkeys": 4, "tier": tier, "ws": True} for i in range(4))
+        us.extend({"kind": kind, "part": i, "of": 2, "nkeys": 4, "tier": tier, "cross": True} for i in range(2))
     us.extend({"kind": "jsonld", "part": i, "of": 32, "tier": tier} for i in range(32))
     us.append({"kind": "rdflib"})
     us.append({"kind": "paths"})
@@ -399,6 +400,14 @@ WS_U = ["x", "x ", "\tx", "x\u00a0"]
 
 def cases(unit):
     kind = unit["kind"]
+    if unit.get("cross"):   # CURIE prefixes and URI prefixes are separate name spaces: the same string may occur on both sides
+        CP, CU = ["a", "x", "b"], ["x", "a", "b"]
+        if kind in ("prefix_map", "upgrade"):
+            return [(kind, g) for g in partial_maps(CP, CU) if 1 <= len(g) <= 3]
+        if kind == "reverse":
+            return [(kind, g) for g in partial_maps(CU, CP) if 1 <= len(g) <= 3]
+        if kind == "priority":
+            return [(kind, [("a", l1), ("x", l2)]) for l1 in it.permutations(CU, 2) for l2 in it.permutations(CU, 2)] + [(kind, [("a", l)]) for l in it.permutations(CU, 3)]
     if unit.get("ws"):   # strings that differ only by leading / trailing whitespace are different strings
         if kind in ("prefix_map", "upgrade"):
             return [(kind, g) for g in partial_maps(WS_P, WS_U) if 1 <= len(g) <= 3]
